@@ -9,6 +9,7 @@
 -/
 import Jawk.Props.C06Steps
 import Jawk.Lemmas.Noise
+import Jawk.Props.Tables
 namespace Jawk.C06
 open Jawk Noise RunSpec Pipe
 
